@@ -166,6 +166,9 @@ def run_unit(ck, unit):
         ck.replays_ok += 1
         if n['verdict'] == (wv == 0):
             return ('spurious', 'native verdict agrees with the reference (%s)' % path)
+        pins = reality_pins(ck, tr.uni, model)
+        if pins:
+            return ('retry', exact_rendering_region(tr.uni), ('spurious', 'the witness depends on the unmodelled text of a number (%s)' % path))
         key = 'language:' + name.split('/')[0]
         if several_batches(rule, r):
             key = 'quantifier:list-split-into-several-batches'
